@@ -12,7 +12,7 @@ func init() {
 	register("C20", &propDef{
 		Run: runC20,
 		Info: propInfo{
-			Explanation: "XorBytes: (R1) the build constraints (//go:build expressions parsed with go/build/constraint plus GOARCH file-name suffixes) are evaluated over the complete truth table of the tags that occur x {arm, other}: exactly one file defining XorBytes is selected in every row; (R2) the definition active in each analysed configuration is a single-block pure delegation 'return subtle.XORBytes(dst, {a,b})' with no other instruction - crypto/subtle's contract then gives the property - or else satisfies the legacy rules; (R3) legacy files that no available toolchain selects are parsed and type-checked stand-alone and checked structurally: n is the minimum of the two lengths (guarded phi), 0 is returned only on n == 0, every dispatch arm receives (dst, a, b, n) with pointers &x[0], n is returned, every xor loop uses one index for destination and operands, steps by 1, and the loops cover exactly [0,n) (byte loop) or [0,n/w) words + [n-n%w,n) bytes; a xor routine writes no memory outside these loops and XorBytes has no explicit panic (decided path by path with private helpers inlined; the legacy file is type-checked together with the files a build selecting it would also select). The assembly bodies and the standard library are trusted.",
+			Explanation: "XorBytes: (R1) the build constraints (//go:build expressions parsed with go/build/constraint plus GOARCH file-name suffixes) are evaluated over the complete truth table of the tags that occur x {arm, other}: exactly one file defining XorBytes is selected in every row; (R2) the definition active in each analysed configuration is a single-block pure delegation 'return subtle.XORBytes(dst, {a,b})' with no other instruction - crypto/subtle's contract then gives the property - or else satisfies the legacy rules; (R3) legacy files that no available toolchain selects are parsed and type-checked stand-alone and checked structurally: n is the minimum of the two lengths (guarded phi), 0 is returned only on n == 0, every dispatch arm receives (dst, a, b, n) with pointers &x[0], n is returned, every xor loop uses one index for destination and operands, steps by 1, and the loops cover exactly [0,n) (byte loop) or [0,n/w) words + [n-n%w,n) bytes; a xor routine writes no memory outside these loops and XorBytes has no explicit panic (decided path by path with private helpers inlined; the legacy file is type-checked together with the files a build selecting it would also select). Every xor routine of the file (also one the analysed configuration folds out of the dispatch) stores into dst[i] exactly a[i] ^ b[i] - destination and operands traced back to the routine's own parameters through word views - and contains no copy/clear; an unconstrained XorBytes that only forwards to the build-constrained function is followed (R2w). The assembly bodies and the standard library are trusted.",
 			RuleText:    "one obligation per rule / file / configuration; sites are files, truth-table rows, calls and loops; non-trivial = matched at least one site",
 			Assumptions: append([]string{"crypto/subtle.XORBytes implements bytewise XOR over min(len(x),len(y)) with exact or no overlap (standard library contract)", "xor_arm.s implements the documented routines"}, commonAssumptions...),
 		},
@@ -21,7 +21,7 @@ func init() {
 	register("C18", &propDef{
 		Run: runC18,
 		Info: propInfo{
-			Explanation: "dpipe: Write queues a freshly allocated copy on the write channel (taint) and every successful Write has passed the send (also for an empty message); Pipe cross-wires two distinct channels and gives each end its own closed channel, closed once (sync.Once) by that end only; Read takes one message per return and reports len(message) only on the edge len(message) <= len(buffer), else len(buffer). Bridge: Push copies (taint); for Push, Len, Reorder, Drop, DropNextNWrites, ReorderNextNWrites and Filter the code of direction 0 and of direction 1 is identical up to the renaming 0<->1 (mirror comparison of canonical serialisations of the two branches: first divergence is reported); a completed reorder burst is appended to the existing queue and the stack is then reset to nil on every path (no aliasing, no re-delivery); Tick offers the head (index 0) of each queue to the peer's unbuffered read channel without blocking and removes it exactly on the success edge. Not decided: that reorder/drop scripts realise exactly the intended permutation.",
+			Explanation: "dpipe: Write queues a freshly allocated copy on the write channel (taint) and every successful Write has passed the send (also for an empty message); Pipe cross-wires two distinct channels and gives each end its own closed channel, closed once (sync.Once) by that end only; Read takes one message per return and reports len(message) only on the edge len(message) <= len(buffer), else len(buffer). Bridge: Push copies (taint); for Push, Len, Reorder, Drop, DropNextNWrites, ReorderNextNWrites and Filter the code of direction 0 and of direction 1 is identical up to the renaming 0<->1 (mirror comparison of canonical serialisations of the two branches: first divergence is reported); a completed reorder burst is appended to the existing queue and the stack is then reset to nil on every path (no aliasing, no re-delivery); Tick offers the head (index 0) of each queue to the peer's unbuffered read channel without blocking and removes it exactly on the success edge. dpipe Read never consults the capacity of the caller's slice nor re-slices it beyond its length; once a message is on the reorder stack every path of Push that finds the countdown at 0 flushes; Drop replaces the queue by queue[:offset] + queue[min(offset+n,len):] (symbolic, per path of the helper). Not decided: that reorder/drop scripts realise exactly the intended permutation.",
 			RuleText:    "one obligation per rule / per mirrored method; sites are sends, stores, returns, branch regions; non-trivial = matched at least one site",
 			Assumptions: commonAssumptions,
 		},
@@ -29,7 +29,7 @@ func init() {
 	register("C17", &propDef{
 		Run: runC17,
 		Info: propInfo{
-			Explanation: "Sibling rule over the six context-aware I/O functions (found by signature: context + []byte + an I/O invoke on the wrapped connection field; floor 6), direction d in {Read, Write}: the watcher goroutine forces a past d-deadline only in the ctx.Done() case of a select that also waits for completion, then waits for the operation (receive from done), then restores the zero d-deadline on every path where forcing succeeded, touches no other direction's deadline, and signals wg.Done only afterwards; the outer function itself never manipulates deadlines; close(done) then wg.Wait() lie on every path from the I/O call to the return while the direction's mutex is still held; wg.Add precedes go which precedes the I/O; the returned byte count is always the wrapped call's n and the context's error is substituted only on the edge ctx.Err() != nil and n == 0; per-direction mutexes differ; the closed test dominates the I/O; lock balance. Promptness depends on the wrapped connection honouring deadlines and is not decided.",
+			Explanation: "Sibling rule over the six context-aware I/O functions (found by signature: context + []byte + an I/O invoke on the wrapped connection field; floor 6), direction d in {Read, Write}: the watcher goroutine forces a past d-deadline only in the ctx.Done() case of a select that also waits for completion, then waits for the operation (receive from done), then restores the zero d-deadline on every path where forcing succeeded, touches no other direction's deadline, and signals wg.Done only afterwards; the outer function itself never manipulates deadlines; close(done) then wg.Wait() lie on every path from the I/O call to the return while the direction's mutex is still held; wg.Add precedes go which precedes the I/O; the returned byte count is always the wrapped call's n and the context's error is substituted only on the edge ctx.Err() != nil and n == 0; per-direction mutexes differ; the closed test dominates the I/O; lock balance. The forced deadline is a fixed past instant (time.Unix with small constants, directly or through a package variable only its initialiser assigns), never derived from the context; the watcher is started with the direction's mutex already held; completion may be signalled by wg.Done/wg.Wait or by closing a channel of its own that the caller receives from. Promptness depends on the wrapped connection honouring deadlines and is not decided.",
 			RuleText:    "one obligation per rule per sibling function; sites are calls, selects, returns; non-trivial = matched at least one site",
 			Assumptions: append([]string{"the wrapped net.Conn / net.PacketConn honours Set{Read,Write}Deadline"}, commonAssumptions...),
 		},
@@ -37,7 +37,7 @@ func init() {
 	register("C04", &propDef{
 		Run: runC04,
 		Info: propInfo{
-			Explanation: "Replay-detector rules decided by symbolic evaluation of every acyclic path of Check and of the accept closure (linear forms with store-to-load forwarding, no concrete inputs): every accepting path has established seq <= max and either 'newer' or (inside the window by the unsigned / folded distance, and the bit at exactly that distance clear); every refusing path refuses for one of the legitimate reasons; the wrapping detector folds the distance with exactly d > max/2 and d <= -max/2; Check writes nothing (purity); every path of accept calls SetBit exactly once, at the very distance Check tested (0 after moving the head), moves the head exactly when the number is newer, shifting by exactly the distance first; Bit/SetBit guard i < n and address word i/64; the truncation mask of the top word has width >= n%64 (affine check at both ends of [1,63]) and 64 for n%64 == 0. Lsh(n), n = 64q+r, writes into each word exactly (bits[i] << n) | bits[i-q] << r | bits[i-q-1] >> (64-r) with the carry terms present exactly when their index is >= 0 (term sets compared per path of one loop iteration); the plain detector's unsigned arithmetic cannot wrap around (every subtraction is on a path that established the order of its operands, no two variable quantities are added); its accept reports 'latest' exactly when the head moves or in the initial position. Not decided: truncation of a jump of 2^32 or more to a 32-bit uint on 32-bit platforms.",
+			Explanation: "Replay-detector rules decided by symbolic evaluation of every acyclic path of Check and of the accept closure (linear forms with store-to-load forwarding, no concrete inputs): every accepting path has established seq <= max and either 'newer' or (inside the window by the unsigned / folded distance, and the bit at exactly that distance clear); every refusing path refuses for one of the legitimate reasons; the wrapping detector folds the distance with exactly d > max/2 and d <= -max/2; Check writes nothing (purity); every path of accept calls SetBit exactly once, at the very distance Check tested (0 after moving the head), moves the head exactly when the number is newer, shifting by exactly the distance first; Bit/SetBit guard i < n and address word i/64; the truncation mask of the top word has width >= n%64 (affine check at both ends of [1,63]) and 64 for n%64 == 0. Lsh(n), n = 64q+r, writes into each word exactly (bits[i] << n) | bits[i-q] << r | bits[i-q-1] >> (64-r) with the carry terms present exactly when their index is >= 0 (term sets compared per path of one loop iteration); the plain detector's unsigned arithmetic cannot wrap around (every subtraction is on a path that established the order of its operands, no two variable quantities are added); its accept reports 'latest' exactly when the head moves or in the initial position. No ordering comparison has as operand a conversion of the sequence number, the maximum or the head to a signed or narrower type, and the shift routine takes an unsigned count that reaches it without passing through a signed type (R8). Not decided: truncation of a jump of 2^32 or more to a 32-bit uint on 32-bit platforms.",
 			RuleText:    "one obligation per rule per detector; a site is one path of Check / accept with its literal set, or a word access; non-trivial = matched at least one path",
 			Assumptions: commonAssumptions,
 		},
@@ -55,7 +55,7 @@ func init() {
 	register("C01", &propDef{
 		Run: runC01,
 		Info: propInfo{
-			Explanation: "Delivery rules of the virtual network on SSA/CFG/call graph: WriteTo copies the payload into a fresh slice (taint), every successful WriteTo has handed the chunk to the network, and Clone deep-copies it; every function on the datagram path forwards at most once per datagram (path counting per call / per dequeued chunk) and forwards the very chunk it received/dequeued/translated; a datagram is dropped only on the enumerated drop edges (each conditional edge that cannot reach a forward any more is classified by the kind of its guard and compared with a frozen table); the queue is a FIFO consumed only by processChunks, which runs only in the single goroutine Start launches on the not-started edge under the mutex; the host delivers to the socket looked up by the destination address on the found edge; towards the parent exactly the outbound translation's non-error result is pushed; the wake-up channel has capacity >= 1 and a token follows every successful enqueue; sends on a socket's receive queue are non-blocking, under its mutex, on the !closed edge, and the queue is closed once in that critical section; no go/deferred forward on the datagram path; the chunk carries the determined source IP, the local port and the caller's destination. NAT address correctness is C02/C03; capacity conditions and timing are not decided.",
+			Explanation: "Delivery rules of the virtual network on SSA/CFG/call graph: WriteTo copies the payload into a fresh slice (taint), every successful WriteTo has handed the chunk to the network, and Clone deep-copies it; every function on the datagram path forwards at most once per datagram (path counting per call / per dequeued chunk) and forwards the very chunk it received/dequeued/translated; a datagram is dropped only on the enumerated drop edges (each conditional edge that cannot reach a forward any more is classified by the kind of its guard and compared with a frozen table); the queue is a FIFO consumed only by processChunks, which runs only in the single goroutine Start launches on the not-started edge under the mutex; the host delivers to the socket looked up by the destination address on the found edge; towards the parent exactly the outbound translation's non-error result is pushed; the wake-up channel has capacity >= 1 and a token follows every successful enqueue; sends on a socket's receive queue are non-blocking, under its mutex, on the !closed edge, and the queue is closed once in that critical section; no go/deferred forward on the datagram path; the chunk carries the determined source IP, the local port and the caller's destination. The host takes its loopback shortcut on the destination IP of the datagram and only then delivers locally; the wait processChunks reports to the forwarding loop is 0 only when the queue was found empty and otherwise the head's remaining delay against the very clock reading of the due test (positive: the loop does not wait for a push while a chunk is queued). NAT address correctness is C02/C03; capacity conditions and timing are not decided.",
 			RuleText:    "one obligation per rule; sites are forwards, drop edges, channel operations, stores and call-graph edges; non-trivial = matched at least one site",
 			Assumptions: commonAssumptions,
 		},
@@ -63,7 +63,7 @@ func init() {
 	register("C13", &propDef{
 		Run: runC13,
 		Info: propInfo{
-			Explanation: "Address-uniqueness rules: the automatic allocator returns an address only on the not-present edge of a lookup of that very address in the NIC table, is always called with the router mutex held (caller-holds inference) and bounds the host byte before advancing it, reporting exhaustion otherwise; registration in the NIC table (one site) is dominated by the subnet test on that very address; a socket is created/inserted only after the ownership test and after a successful ephemeral search in 5000-5999 or the not-found edge of the conflict lookup (edge cut), with every caller holding the host mutex exclusively; assignPort returns exactly the port it probed free; insert's conflict predicate and find's match predicate are both (stored IP unspecified || equal IP) on the bucket of the port; Close releases the socket's own address exactly on the !closed edge and the host deletes it from the table; inbound datagrams go to the socket found for their destination.",
+			Explanation: "Address-uniqueness rules: the automatic allocator returns an address only on the not-present edge of a lookup of that very address in the NIC table, is always called with the router mutex held (caller-holds inference) and bounds the host byte before advancing it, reporting exhaustion otherwise; registration in the NIC table (one site) is dominated by the subnet test on that very address; a socket is created/inserted only after the ownership test and after a successful ephemeral search in 5000-5999 or the not-found edge of the conflict lookup (edge cut), with every caller holding the host mutex exclusively; assignPort returns exactly the port it probed free; the ephemeral search runs over the IP of the very address the socket is then bound to; insert's conflict predicate and find's match predicate are both (stored IP unspecified || equal IP) on the bucket of the port; Close releases the socket's own address exactly on the !closed edge and the host deletes it from the table; inbound datagrams go to the socket found for their destination.",
 			RuleText:    "one obligation per rule; sites are returns, map updates, calls, call-graph edges; non-trivial = matched at least one site",
 			Assumptions: commonAssumptions,
 		},
@@ -71,7 +71,7 @@ func init() {
 	register("C02", &propDef{
 		Run: runC02,
 		Info: propInfo{
-			Explanation: "NAT mapping rules on SSA/CFG/call graph: the mapping key is chosen by an exhaustive switch whose classes are none / destination IP / destination IP:port and is combined with the source address; every key used on outboundMap/inboundMap (followed through the lookup helpers to their call sites) has the separator skeleton proto:local:bound resp. proto:mapped, and insert and delete keys agree component by component (through the values stored in the mapping at creation); creation registers in both tables, removal deletes from both; the expiry is written only by functions not reachable from the inbound translation and every outbound reuse refreshes (in the helper or on the caller's found edge); lookup helpers hand a mapping out only on the not-expired edge and remove on the expired edge; the external port is base + counter mod span inside [1,65535] and an address is handed out only on the edge where the inbound table has no live mapping for that very address; 1:1 helpers are index-aligned mirror images and rewrite only the respective side with the port preserved. Wall-clock lifetimes are not decided.",
+			Explanation: "NAT mapping rules on SSA/CFG/call graph: the mapping key is chosen by an exhaustive switch whose classes are none / destination IP / destination IP:port and is combined with the source address; every key used on outboundMap/inboundMap (followed through the lookup helpers to their call sites) has the separator skeleton proto:local:bound resp. proto:mapped, and insert and delete keys agree component by component (through the values stored in the mapping at creation); creation registers in both tables, removal deletes from both; the expiry is written only by functions not reachable from the inbound translation and every outbound reuse refreshes (in the helper or on the caller's found edge); lookup helpers hand a mapping out only on the not-expired edge and remove on the expired edge; the external port is base + counter mod span inside [1,65535] and an address is handed out only on the edge where the inbound table has no live mapping for that very address; 1:1 helpers are index-aligned mirror images and rewrite only the respective side with the port preserved. Every store to a mapping's expiry is time.Now().Add(MappingLifeTime) (the idle timer restarts at the outbound datagram; lifetimes are not banked). Wall-clock lifetimes are not decided.",
 			RuleText:    "one obligation per rule; sites are switch tables, key uses, stores, returns; non-trivial = matched at least one site",
 			Assumptions: commonAssumptions,
 		},
@@ -87,7 +87,7 @@ func init() {
 	register("C14", &propDef{
 		Run: runC14,
 		Info: propInfo{
-			Explanation: "Delay rules on SSA/CFG: every peek() result is nil-tested or comma-ok asserted before a use that panics on an empty queue (belief contradiction across the five call sites), and fields of a comma-ok asserted head are used only on the ok edge; the delay filter pops and forwards only on the due edge (deadline before now), forwards exactly the wrapped chunk, once per pop; the due time is time.Now()+configured delay computed at arrival, queued before the notification; only timedChunk values enter the filter queue; every path from a timer tick, from a timer.Stop() and from an arrival whose queue head is still present to the next wait re-arms the timer (failed assertions of a non-nil head are infeasible by the previous rule); the timer channel is drained only when Stop() failed; the router pops only chunks whose timestamp is not after now-minDelay (exact linear form of the cut-off) and stamps chunks before enqueueing; the queue is a FIFO (append at end, read/remove index 0). Wall-clock lower bounds and jitter values are not decided.",
+			Explanation: "Delay rules on SSA/CFG: every peek() result is nil-tested or comma-ok asserted before a use that panics on an empty queue (belief contradiction across the five call sites), and fields of a comma-ok asserted head are used only on the ok edge; the delay filter pops and forwards only on the due edge (deadline before now), forwards exactly the wrapped chunk, once per pop; the due time is time.Now()+configured delay computed at arrival, queued before the notification; only timedChunk values enter the filter queue; every path from a timer tick, from a timer.Stop() and from an arrival whose queue head is still present to the next wait re-arms the timer (failed assertions of a non-nil head are infeasible by the previous rule); the timer channel is drained only when Stop() failed; the router pops only chunks whose timestamp is not after now-minDelay (exact linear form of the cut-off) and stamps chunks before enqueueing; the queue is a FIFO (append at end, read/remove index 0). The wait reported to the forwarding loop is 0 only for an empty queue and otherwise (head timestamp + minDelay) - T with the T of the cut-off test (R9). Wall-clock lower bounds and jitter values are not decided.",
 			RuleText:    "one obligation per rule; sites are peek/pop/forward/timer operations and stores; non-trivial = matched at least one site",
 			Assumptions: commonAssumptions,
 		},
@@ -95,7 +95,7 @@ func init() {
 	register("C15", &propDef{
 		Run: runC15,
 		Info: propInfo{
-			Explanation: "Token-bucket rules on SSA/CFG/call graph: every store to the token count is min(float64(maxBurst), .) or subtracts the forwarded size, and the refill executes the capped store on every path under the filter mutex; there is exactly one forwarding site, in the drain loop, guarded by tokens >= size of the peeked head, which is the forwarded value; per loop iteration exactly one pop and one decrement by that size are paired with the forward, and nothing is popped without being forwarded; the queue is popped only by the drain loop and fed only by run with the arriving chunk on every path (discard only via push refusing); single consumer goroutine started once; FIFO queue shape; peek results nil-tested; the constructor builds the queue with no count limit and with the size field read after the caller's options were applied (a field some option sets). The byte bound over every interval (floating-point/time arithmetic) is not decided.",
+			Explanation: "Token-bucket rules on SSA/CFG/call graph: every store to the token count is min(float64(maxBurst), .) or subtracts the forwarded size, and the refill executes the capped store on every path under the filter mutex; there is exactly one forwarding site, in the drain loop, guarded by tokens >= size of the peeked head, which is the forwarded value; per loop iteration exactly one pop and one decrement by that size are paired with the forward, and nothing is popped without being forwarded; the queue is popped only by the drain loop and fed only by run with the arriving chunk on every path (discard only via push refusing); single consumer goroutine started once; FIFO queue shape; peek results nil-tested; the constructor builds the queue with no count limit and with the size field read after the caller's options were applied (a field some option sets). The queue's byte occupancy changes only by +len(payload) of the chunk pushed and -len(payload) of the chunk popped, and push refuses on occupancy+len(payload) (one measure on both sides). The byte bound over every interval (floating-point/time arithmetic) is not decided.",
 			RuleText:    "one obligation per rule; sites are stores, queue operations, forwards and call-graph edges; non-trivial = matched at least one site",
 			Assumptions: commonAssumptions,
 		},
@@ -103,7 +103,7 @@ func init() {
 	register("C16", &propDef{
 		Run: runC16,
 		Info: propInfo{
-			Explanation: "Loss-filter rules: exactly one uniform draw rand.Intn(100) per datagram; the drop decision, extracted as a decision structure over linear atoms and compared by a complete truth table, is 'drop iff draw < chance' on the configured int chance stored unchanged by the constructor (so chance <= 0 never drops and chance >= 100 always does - exact end points); at most one forward, of the very chunk received, to the wrapped NIC; no other effect. The dropped fraction for 0 < chance < 100 is statistical and not decided.",
+			Explanation: "Loss-filter rules: exactly one uniform draw rand.Intn(100) per datagram; the drop decision, extracted as a decision structure over linear atoms and compared by a complete truth table, is 'drop iff draw < chance' on the configured int chance stored unchanged by the constructor (so chance <= 0 never drops and chance >= 100 always does - exact end points); at most one forward, of the very chunk received, to the wrapped NIC; no other effect. The shared generator is re-seeded only from the nanosecond clock. The dropped fraction for 0 < chance < 100 is statistical and not decided.",
 			RuleText:    "one obligation per rule; sites are the draw, branch atoms, stores and forwards; non-trivial = matched at least one site",
 			Assumptions: append([]string{"math/rand.Intn(n) is uniform over [0,n)"}, commonAssumptions...),
 		},
@@ -111,7 +111,7 @@ func init() {
 	register("C10", &propDef{
 		Run: runC10,
 		Info: propInfo{
-			Explanation: "Sibling rule over every module type that owns a read deadline (found by its SetReadDeadline method; floor 5): SetReadDeadline hands its argument on every path to a level-triggered deadline.Deadline held in a field, or to another owner it also reads from; SetDeadline reaches it with the same argument; no function reachable from the type's Read methods receives from a one-shot timer channel (time.Timer.C, time.After); each non-delegating Read tests Done() without blocking first, every blocking wait on a data channel of the owner is a select with a Done() case dominated by that pre-check, every Done() branch returns a timeout-class error (value analysis of Timeout()), and timeout-class errors are returned only inside Done() branches (no spurious timeout). The Deadline bookkeeping itself (C09 rules) is included. When the timeout fires in wall-clock terms is not decided.",
+			Explanation: "Sibling rule over every module type that owns a read deadline (found by its SetReadDeadline method; floor 5): SetReadDeadline hands its argument on every path to a level-triggered deadline.Deadline held in a field, or to another owner it also reads from; SetDeadline reaches it with the same argument; no function reachable from the type's Read methods receives from a one-shot timer channel (time.Timer.C, time.After); each non-delegating Read tests Done() without blocking first, every blocking wait on a data channel of the owner is a select with a Done() case dominated by that pre-check, every Done() branch returns a timeout-class error (value analysis of Timeout()), and timeout-class errors are returned only inside Done() branches (no spurious timeout). A read that delegates to another read returns that read's error whenever it is not nil (uncovered ReadFromUDP replacing a timeout by ErrNotUDPAddress; repaired). The Deadline bookkeeping itself (C09 rules) is included. When the timeout fires in wall-clock terms is not decided.",
 			RuleText:    "one obligation per owner type (R1) and per Read method (R2); sites are calls, selects and returns; non-trivial = matched at least one site",
 			Assumptions: append([]string{"wrapped net.Conn implementations outside the module honour their own deadlines"}, commonAssumptions...),
 		},
@@ -120,7 +120,7 @@ func init() {
 	register("C11", &propDef{
 		Run: runC11,
 		Info: propInfo{
-			Explanation: "Demultiplexing rules of the UDP listener on SSA/CFG/call graph: the connection table is looked up, inserted and deleted with String() of the same remote address (the datagram's in getConn, the conn's own rAddr - recorded from that address by newConn - in both Close paths); the dispatcher writes its own payload into the buffer of the conn returned for its own address, only when a conn was reported; address, payload and length come from the same read / the same batch index; a conn is registered only on the success edge of the non-blocking enqueue, on the accepting edge, under connLock, and it is the queued conn; the accept filter's false edge cannot reach registration; a single goroutine (read loop started once by the constructor, no go on the dispatch path) dispatches; the reused receive buffer is never retained (taint through getConn and Buffer.Write); Conn.Close unregisters its own key under connLock on every path; readers keep no per-remote cache. Byte identity inside the buffer is C06.",
+			Explanation: "Demultiplexing rules of the UDP listener on SSA/CFG/call graph: the connection table is looked up, inserted and deleted with String() of the same remote address (the datagram's in getConn, the conn's own rAddr - recorded from that address by newConn - in both Close paths); the dispatcher writes its own payload into the buffer of the conn returned for its own address, only when a conn was reported; address, payload and length come from the same read / the same batch index; a conn is registered only on the success edge of the non-blocking enqueue, on the accepting edge, under connLock, and it is the queued conn; the accept filter's false edge cannot reach registration; a single goroutine (read loop started once by the constructor, no go on the dispatch path) dispatches; the reused receive buffer is never retained (taint through getConn and Buffer.Write); Conn.Close unregisters its own key under connLock on every path; readers keep no per-remote cache. Every read path receives into payload buffers of the package's one receive size. Byte identity inside the buffer is C06.",
 			RuleText:    "one obligation per rule; sites are map operations, calls, stores and call-graph edges; non-trivial = matched at least one site",
 			Assumptions: commonAssumptions,
 		},
@@ -129,7 +129,7 @@ func init() {
 	register("C12", &propDef{
 		Run: runC12,
 		Info: propInfo{
-			Explanation: "Reference-counting discipline that decides when the shared socket is closed, on SSA/CFG + lockset: exactly one close site of the socket, dominated by connWG.Wait(); every Done is once-only (sync.Once closure) or undoes the Add of its own path; every Add is in the constructor before any goroutine starts, or under connLock on the accepting edge, in the same critical section as and before the enqueue; a conn leaving the backlog is handed to Accept's caller or released (drain unregisters + Done under connLock; failed enqueue gives the reference back; Accept returns what it receives and never Adds); Conn.Close must-pass buffer.Close and unregisters; listener Close clears accepting and closes doneCh (once) before taking connLock, and drops its own reference only after the drain's critical section; Accept fails after doneCh is closed; lock balance. Goroutine termination and port reuse are consequences of the count reaching zero exactly once and are not separately decided.",
+			Explanation: "Reference-counting discipline that decides when the shared socket is closed, on SSA/CFG + lockset: exactly one close site of the socket, dominated by connWG.Wait(); every Done is once-only (sync.Once closure) or undoes the Add of its own path; every Add is in the constructor before any goroutine starts, or under connLock on the accepting edge, in the same critical section as and before the enqueue; a conn leaving the backlog is handed to Accept's caller or released (drain unregisters + Done under connLock; failed enqueue gives the reference back; Accept returns what it receives and never Adds); Conn.Close must-pass buffer.Close and unregisters; listener Close clears accepting and closes doneCh (once) before taking connLock, and drops its own reference only after the drain's critical section; Accept fails after doneCh is closed; lock balance. connLock is not released between reading the accepting flag and the enqueue. Goroutine termination and port reuse are consequences of the count reaching zero exactly once and are not separately decided.",
 			RuleText:    "one obligation per rule; sites are WaitGroup operations, channel operations, lock operations and returns; non-trivial = matched at least one site",
 			Assumptions: commonAssumptions,
 		},
@@ -138,7 +138,7 @@ func init() {
 	register("C06", &propDef{
 		Run: runC06,
 		Info: propInfo{
-			Explanation: "Structural integrity rules of packetio.Buffer decided on the SSA of Write/Read/grow/available/size over all paths: Write copies the caller's slice (taint: the slice value reaches no store/channel/map/closure); every store to contents/occupancy is on the false edges of the size (>=65536) and closed tests and under the mutex; no error return is reachable after a store (refusal is side-effect free) and growth only re-linearises into a fresh array (head=0, tail=bytes copied, strictly larger); the 2-byte header is written and read with the same byte order; Read advances head by the decoded length and reports (len(buffer), ErrShortBuffer) exactly on the paths that established len(buffer) < length and (length, nil) on those that established length <= len(buffer) (one loop iteration, path by path); on every packet-taking path the head ends, by symbolic evaluation with store-to-load forwarding, at (old head + 2 + length) modulo len(data) whatever was copied; after every advance of head/tail a freshly loaded wrap test precedes the next use; count++/count-- are paired with stored/returned packets; the free-space test keeps one byte free (exact linear normal form). Not decided: the tail arithmetic of Write at every ring offset and the contents copied around the wrap (value-level).",
+			Explanation: "Structural integrity rules of packetio.Buffer decided on the SSA of Write/Read/grow/available/size over all paths: Write copies the caller's slice (taint: the slice value reaches no store/channel/map/closure); every store to contents/occupancy is on the false edges of the size (>=65536) and closed tests and under the mutex; no error return is reachable after a store (refusal is side-effect free) and growth only re-linearises into a fresh array (head=0, tail=bytes copied, strictly larger); the 2-byte header is written and read with the same byte order; Read advances head by the decoded length and reports (len(buffer), ErrShortBuffer) exactly on the paths that established len(buffer) < length and (length, nil) on those that established length <= len(buffer) (one loop iteration, path by path); on every packet-taking path the head ends, by symbolic evaluation with store-to-load forwarding, at (old head + 2 + length) modulo len(data) whatever was copied; after every advance of head/tail a freshly loaded wrap test precedes the next use; count++/count-- are paired with stored/returned packets; the free-space test keeps one byte free (exact linear normal form). Growth copies exactly data[head:tail] (contiguous path) or data[head:] followed by data[:tail] right behind it (wrapped path). Not decided: the tail arithmetic of Write at every ring offset and the contents copied around the wrap (value-level).",
 			RuleText:    "one obligation per rule per anchored function/helper; a site is a matched store, copy, return, branch or path; non-trivial = matched at least one site",
 			Assumptions: commonAssumptions,
 		},
@@ -147,7 +147,7 @@ func init() {
 	register("C07", &propDef{
 		Run: runC07,
 		Info: propInfo{
-			Explanation: "Limit and occupancy rules of packetio.Buffer: the limit test of Write is extracted as a decision structure over linear atoms and compared, by a complete truth table over its distinct atoms, with 'refuse iff (limitCount>0 and count+1>limitCount) or (limitSize>0 and size+2+len>limitSize)' (any equivalent comparison spelling has the same normal form); all stores are dominated by that test; no error return is reachable after a store; growth re-linearises and is capped at limitSize+1 / 4 MiB; Count/Size return the occupancy fields/helper under the mutex, the setters store their argument under the mutex and nobody else writes the limits; the occupancy and free-space helpers have the exact linear forms tail-head (+len) and size+3<=available; count updates are paired. Not decided: exactness at every occupancy of the growth arithmetic.",
+			Explanation: "Limit and occupancy rules of packetio.Buffer: the limit test of Write is extracted as a decision structure over linear atoms and compared, by a complete truth table over its distinct atoms, with 'refuse iff (limitCount>0 and count+1>limitCount) or (limitSize>0 and size+2+len>limitSize)' (any equivalent comparison spelling has the same normal form); all stores are dominated by that test; no error return is reachable after a store; growth re-linearises and is capped at limitSize+1 / 4 MiB; Count/Size return the occupancy fields/helper under the mutex, the setters store their argument under the mutex and nobody else writes the limits; the occupancy and free-space helpers have the exact linear forms tail-head (+len) and size+3<=available; count updates are paired. The ring rules of C06 are evaluated here too under the prefix Ring. (Size() is tail - head: the indices must be advanced by exactly what was stored/consumed and wrapped). Not decided: exactness at every occupancy of the growth arithmetic.",
 			RuleText:    "one obligation per rule; sites are branch atoms, stores, returns and helper paths; non-trivial = matched at least one site",
 			Assumptions: commonAssumptions,
 		},
@@ -156,7 +156,7 @@ func init() {
 	register("C09", &propDef{
 		Run: runC09,
 		Info: propInfo{
-			Explanation: "Typestate/counting analysis of deadline.Deadline: every acyclic path of Set and of the timer callback is enumerated over the abstract entry state {stopped, started, exceeded} (loads of state before the first store denote the entry value, so infeasible combinations are pruned), the outcome of timer.Stop() and the class of the argument (zero/future/past). Checked per feasible path: delta(pending) = #arms - [Stop()==true]; Stop() is called first and exactly when the entry state is started; outcome by argument class (arm xor close, final state); a fresh done channel iff the entry state is exceeded, before any close/arm; the argument is stored; the callback decrements first and signals only on pending==0 and state==started, closing the channel value read under the lock; Err/Done/Deadline return the right fields; lock balance. These are the bookkeeping conditions that neutralise a stale callback for every sequence of Sets and every callback interleaving; wall-clock exactness and the runtime Timer contract are trusted, not decided.",
+			Explanation: "Typestate/counting analysis of deadline.Deadline: every acyclic path of Set and of the timer callback is enumerated over the abstract entry state {stopped, started, exceeded} (loads of state before the first store denote the entry value, so infeasible combinations are pruned), the outcome of timer.Stop() and the class of the argument (zero/future/past). Checked per feasible path: delta(pending) = #arms - [Stop()==true]; Stop() is called first and exactly when the entry state is started; outcome by argument class (arm xor close, final state); a fresh done channel iff the entry state is exceeded, before any close/arm; the argument is stored; the callback decrements first and signals only on pending==0 and state==started, closing the channel value read under the lock; Err/Done/Deadline return the right fields; lock balance. The runtime timer is stopped/re-armed/created only under the mutex and armed with exactly time.Until(t) handed on unchanged by every helper (R8); Err may read a state-indexed table filled once by the package initialiser. These are the bookkeeping conditions that neutralise a stale callback for every sequence of Sets and every callback interleaving; wall-clock exactness and the runtime Timer contract are trusted, not decided.",
 			RuleText:    "one obligation per rule; a site is one feasible (path x entry state x Stop outcome x argument class) combination, or a matched return/lock operation; non-trivial = at least one feasible path matched",
 			Assumptions: append([]string{"time.Timer / time.AfterFunc: Stop() returns true iff the callback was prevented from running; Reset re-arms"}, commonAssumptions...),
 		},
@@ -174,7 +174,7 @@ func init() {
 	register("C19", &propDef{
 		Run: runC19,
 		Info: propInfo{
-			Explanation: "Static lockset analysis (flow-sensitive must-locksets over go/ssa with caller-holds inference) of every struct field and package variable of vnet, packetio, deadline, udp and dpipe: a field written after construction must be accessed under the object's (or its owner's) mutex, writes exclusively; atomically accessed words are never accessed plainly; package variables written at run time are atomic or locked; the listed exemptions (set-up phase, goroutine-confined, exclusively owned message objects) have their side conditions verified; every lock is released on all paths. A consistent lock discipline is sufficient for the absence of data races on these fields for every client program and schedule; races through user-supplied callbacks are not decided.",
+			Explanation: "Static lockset analysis (flow-sensitive must-locksets over go/ssa with caller-holds inference) of every struct field and package variable of vnet, packetio, deadline, udp and dpipe: a field written after construction must be accessed under the object's (or its owner's) mutex, writes exclusively; atomically accessed words are never accessed plainly; package variables written at run time are atomic or locked; the listed exemptions (set-up phase, goroutine-confined, exclusively owned message objects) have their side conditions verified; every lock is released on all paths. A channel closed under a mutex is sent on only under a mutex of the same object type; a package variable holding a standard-library object that is not safe for concurrent use (*rand.Rand, bytes.Buffer, ...) is used only under a package-level lock. A consistent lock discipline is sufficient for the absence of data races on these fields for every client program and schedule; races through user-supplied callbacks are not decided.",
 			RuleText:    "one obligation per (type.field) that is written after construction, per atomic word, per run-time-written package variable, per exemption entry and per function with lock operations; a site is one access / lock operation; non-trivial = obligation matched at least one program site",
 			Assumptions: commonAssumptions,
 		},
